@@ -504,6 +504,7 @@ func healthScenario(s *verifsim.Sim) {
 		}
 		return p
 	}
+	renamedGroup := -1 // set before a reload hand-over: the group of the new generation that got a new name
 	mkGroup := func(gi int, members []int, pol ob.DialerSelectionPolicy, c *controlPlaneCore, nodes []*hNode, offsets []time.Duration) *hGroup {
 		g := &hGroup{outbound: uint8(2 + gi), members: members, policy: pol, tol: tol}
 		var ds []*componentdialer.Dialer
@@ -512,7 +513,11 @@ func healthScenario(s *verifsim.Sim) {
 			ds = append(ds, nodes[m].d)
 			ann = append(ann, &componentdialer.Annotation{AddLatency: offsets[k]})
 		}
-		g.g = ob.NewDialerGroup(opt, fmt.Sprintf("g%d", gi), ds, ann, pol, c.outboundAliveChangeCallback(g.outbound, false))
+		name := fmt.Sprintf("g%d", gi)
+		if gi == renamedGroup && nodes != nil && len(nodes) > 0 && nodes[0] != w.nodes[0] {
+			name += "-renamed" // the reloaded configuration calls this group differently: it has no predecessor
+		}
+		g.g = ob.NewDialerGroup(opt, name, ds, ann, pol, c.outboundAliveChangeCallback(g.outbound, false))
 		return g
 	}
 	type gspec struct {
@@ -813,6 +818,10 @@ func healthScenario(s *verifsim.Sim) {
 				}
 			}()
 			var newGroups []*hGroup
+			if T.Chance(1, 3) {
+				renamedGroup = T.Choose(len(gspecs))
+				s.Probe("health.reload-renames-a-group")
+			}
 			for gi, sp := range gspecs {
 				newGroups = append(newGroups, mkGroup(gi, sp.members, w.groups[gi].policy, core2, newNodes, sp.offsets))
 			}
@@ -830,14 +839,17 @@ func healthScenario(s *verifsim.Sim) {
 			for _, g := range newGroups {
 				cpNew.outbounds = append(cpNew.outbounds, g.g)
 			}
-			if !cpNew.InheritDialerHealthFrom(cpOld) {
+			if !cpNew.InheritDialerHealthFrom(cpOld) && !(renamedGroup >= 0 && len(gspecs) == 1) { // (a single, renamed group has no predecessor at all)
 				s.Failf("reload-handover-state", "InheritDialerHealthFrom found no node of the previous generation although every node exists in both")
 				return
 			}
 			// (1) the last known state is handed over: nobody alive before is dead now, and a node
 			// that was dead is alive now only as the floor of a group that had no alive member
 			inGroup := map[int]bool{}
-			for _, g := range w.groups {
+			for gi, g := range w.groups {
+				if gi == renamedGroup {
+					continue // a group without a same-named successor hands nothing over (nodes are matched within same-named groups)
+				}
 				for _, m := range g.members {
 					inGroup[m] = true
 				}
@@ -883,6 +895,9 @@ func healthScenario(s *verifsim.Sim) {
 				for _, nt := range w.types {
 					if set := g.g.MustGetAliveDialerSet(nt); set == nil || set.Len() < 1 {
 						shared := ""
+						if gi == renamedGroup {
+							shared = "@group-without-predecessor"
+						}
 						for _, m := range g.members {
 							for gj, h := range newGroups {
 								if gj == gi {
@@ -890,7 +905,9 @@ func healthScenario(s *verifsim.Sim) {
 								}
 								for _, m2 := range h.members {
 									if m2 == m {
-										shared = "@node-shared-with-another-group"
+										if shared == "" {
+											shared = "@node-shared-with-another-group"
+										}
 									}
 								}
 							}
